@@ -55,6 +55,24 @@ class C18:
                 if op in ("ping", "pong"):
                     n = min(n, 125)
                 frames.append({"op": op, "len": n, "mask": rng.randrange(2 ** 32), "fill": rng.randrange(256)})
+            if rng.random() < 0.15:
+                # RFC 6455 5.4: one message split into fragments (first frame: opcode + FIN=0, then continuation frames, the
+                # last with FIN=1); control frames may travel between the fragments; a text fragment may end inside a
+                # multi-byte character. The endpoint gets the message once, complete, in the position of its last fragment
+                whole = {"op": rng.choice(["text", "text", "binary"]), "len": rng.choice([2, 5, 10, 11, 40, 126, 300, 65536, 70000]),
+                         "fill": rng.choice([0, 3, 6, 7]), "mask": 0}
+                nfr = rng.choice([2, 2, 3, 5])
+                cutsf = sorted(rng.randrange(0, whole["len"] + 1) for _ in range(nfr - 1))
+                edges = [0] + cutsf + [whole["len"]]
+                frag = []
+                for k in range(nfr):
+                    frag.append({"op": whole["op"] if k == 0 else "cont", "fin": 1 if k == nfr - 1 else 0, "of": whole,
+                                 "slice": [edges[k], edges[k + 1]], "len": edges[k + 1] - edges[k], "mask": rng.randrange(2 ** 32), "fill": 0})
+                    if k < nfr - 1 and rng.random() < 0.3:
+                        frag.append({"op": rng.choice(["ping", "pong"]), "len": rng.choice([0, 3, 125]), "mask": rng.randrange(2 ** 32),
+                                     "fill": rng.randrange(256)})
+                at = rng.randrange(0, len(frames) + 1)
+                frames[at:at] = frag
             if rng.random() < 0.2:
                 frames.append({"op": "close", "len": 2, "mask": rng.randrange(2 ** 32), "fill": 3})
             mode = CUT_MODES[i % len(CUT_MODES)]
@@ -77,6 +95,9 @@ class C18:
 
     @staticmethod
     def payload(f):
+        if "of" in f:
+            a, b = f["slice"]
+            return C18.payload(f["of"])[a:b]
         n = f["len"]
         if f["op"] == "text":
             if f["fill"] % 3 == 0 and n >= 4:
@@ -143,7 +164,7 @@ class C18:
         enc = []
         for f in frames:
             key = struct_pack_key(f["mask"])
-            enc.append(W.ref_encode(W.OPC[f["op"]], self.payload(f), key))
+            enc.append(W.ref_encode(W.OPC[f["op"]], self.payload(f), key, fin=f.get("fin", 1)))
         stream = b"".join(enc)
         cuts = self.make_cuts(case, enc)
         vs = []
@@ -196,6 +217,10 @@ class C18:
             # ---- oracle 1: endpoint log == frames sent
             expect = []
             for f in frames:
+                if "of" in f:
+                    if not f["fin"]:
+                        continue            # the message is handed over when its last fragment is there
+                    f = f["of"]
                 p = self.payload(f)
                 expect.append((f["op"].capitalize(), p.decode("utf-8") if f["op"] == "text" else p))
             got = [(op, bytes(p) if not isinstance(p, str) else p) for op, p in w.log]
@@ -203,7 +228,9 @@ class C18:
             if got != expect:
                 first = next((k for k, (a, b) in enumerate(zip(got, expect)) if a != b), min(len(got), len(expect)))
                 shape = "coalesced" if inside["coalesced"] and not inside["split"] else "split" if inside["split"] else "aligned"
-                if nb:
+                if any("of" in f for f in frames):
+                    shape = "fragmented-message"
+                elif nb:
                     shape = "with-second-connection:" + nb["how"]
                 elif case.get("close_at"):
                     shape = "after-server-side-close"
@@ -234,7 +261,7 @@ class C18:
                     # ... the text echoes are the client's text frames, once each and in order (other frames the server may
                     # add, e.g. a pong, and its close frames are not this property's business)
                     texts = [body for fin, opc, masked, body in dec if opc == 0x1]
-                    exp_texts = [self.payload(f) for f in frames if f["op"] == "text"]
+                    exp_texts = [self.payload(f.get("of", f)) for f in frames if f.get("of", f)["op"] == "text" and f.get("fin", 1)]
                     if texts != exp_texts:
                         k = next((k for k, (a, b) in enumerate(zip(texts, exp_texts)) if a != b), min(len(texts), len(exp_texts)))
                         vs.append({"kind": "server_frame_not_rfc6455", "key": "echo:len=%s" % lenkey(len(exp_texts[k]) if k < len(exp_texts) else 0),
